@@ -68,6 +68,10 @@ def read_csv(path: str, encoding='utf-8', delimiter=';') -> WBS:
                 if k not in __DEFAULT_FIELDS:
                     kwargs[k] = row[v]
 
+            # min_start is a task field, not a custom attribute: it is written as str(datetime)
+            if 'min_start' in kwargs:
+                kwargs['min_start'] = datetime.fromisoformat(kwargs['min_start']) if len(kwargs['min_start']) > 0 else None
+
             raws.append(
                 TaskRaw(
                     id=int(row[header['id']]),
